@@ -958,6 +958,18 @@ def strat_law(env, cfg):
     return s()
 
 
+
+_EB_STALE = {}
+
+
+def eb_stale_pt(c):
+    """content of output objects before the call: a fixed multiple of G that no generated case expects"""
+    key = id(c)
+    if key not in _EB_STALE:
+        _EB_STALE[key] = (c, c.E.mul(0x5DEECE66D1234567, c.G))
+    return _EB_STALE[key][1]
+
+
 def run_law(env, cfg, case):
     c = ebctx.curve(env, cfg, case["cid"])
     E, K = c.E, c.K
@@ -1186,7 +1198,7 @@ def run_mul(env, cfg, case):
 
     def build(p):
         sp = p.new("EB", enc(c, P, case.get("rp") or BASICREP))
-        sr = sp if alias else p.new("EB", enc(c, c.G, BASICREP))
+        sr = sp if alias else p.new("EB", enc(c, eb_stale_pt(c), BASICREP))
         if op == "eb_mul_gen":
             sk = p.bn(k)
             p.call(op, sr, sk)
@@ -1254,7 +1266,7 @@ def run_fix(env, cfg, case):
         p.call(pre, st_, sp)
         outs = []
         for k in ks:
-            sr = p.new("EB", enc(c, c.G, BASICREP))
+            sr = p.new("EB", enc(c, eb_stale_pt(c), BASICREP))
             sk = p.bn(k)
             p.call(fix, sr, st_, sk)
             p.dump(sr)
@@ -1294,8 +1306,8 @@ def trick_crashes(env, cfg, c):
             from engine.proto import RunnerCrash
 
             def build(p):
-                s0, s1 = p.new("EB", enc(c, c.G, BASICREP)), p.new("EB", enc(c, ebctx.point(c, 2), BASICREP))
-                p.call("eb_mul_sim_trick", p.new("EB", enc(c, c.G, BASICREP)), s0, p.bn(3), s1, p.bn(5))
+                s0, s1 = p.new("EB", enc(c, eb_stale_pt(c), BASICREP)), p.new("EB", enc(c, ebctx.point(c, 2), BASICREP))
+                p.call("eb_mul_sim_trick", p.new("EB", enc(c, eb_stale_pt(c), BASICREP)), s0, p.bn(3), s1, p.bn(5))
             try:
                 ebctx.run(env, cfg, "eb", c.cid, build, 0x5A)
             except RunnerCrash:
@@ -1347,7 +1359,7 @@ def run_sim(env, cfg, case):
     def build(p):
         s0 = p.new("EB", enc(c, P, (case.get("rp") if op != "eb_mul_sim_gen" else None) or BASICREP))
         s1 = p.new("EB", enc(c, Q, case.get("rq") or BASICREP))
-        sr = p.new("EB", enc(c, c.G, BASICREP)) if alias == 0 else (s0 if alias == 1 else s1)
+        sr = p.new("EB", enc(c, eb_stale_pt(c), BASICREP)) if alias == 0 else (s0 if alias == 1 else s1)
         k0, k1 = p.bn(k), p.bn(m)
         if op == "eb_mul_sim_gen":
             p.call(op, sr, k0, s1, k1)
